@@ -293,6 +293,32 @@ fn main() {
         println!("{:?}", vinproc::expand(&args[2], &src));
         return;
     }
+    if args.len() >= 4 && args[1] == "accepts" {
+        // does each derive accept the item? {"items": [{"name", "derives", "source"}]} -> {name: {derive: verdict}}
+        std::panic::set_hook(Box::new(|_| {}));
+        let inp: Value = serde_json::from_str(&std::fs::read_to_string(&args[2]).unwrap()).unwrap();
+        let mut out = serde_json::Map::new();
+        for it in inp["items"].as_array().unwrap() {
+            let mut m = serde_json::Map::new();
+            for d in it["derives"].as_array().unwrap() {
+                let d = d.as_str().unwrap();
+                let verdict = if vinproc::NOT_IN_PROCESS.contains(&d) {
+                    "na".to_string()
+                } else {
+                    match expand(d, it["source"].as_str().unwrap()) {
+                        Outcome::Ok(_) => "ok".to_string(),
+                        Outcome::Err(m, _) => format!("err: {}", m),
+                        Outcome::NotAnItem(m) => format!("notitem: {}", m),
+                        Outcome::Panic(m) => format!("panic: {}", m),
+                    }
+                };
+                m.insert(d.to_string(), json!(verdict));
+            }
+            out.insert(it["name"].as_str().unwrap().to_string(), Value::Object(m));
+        }
+        std::fs::write(&args[3], serde_json::to_string(&Value::Object(out)).unwrap()).unwrap();
+        return;
+    }
     if args.len() < 5 {
         eprintln!("usage: vinproc <c07|c20> <tier> <seed> <out.json> [--replay file]");
         std::process::exit(2);
